@@ -147,6 +147,42 @@ def rule_panic_inventory(col, facts):
     col.note("%s: %d debug_assert! sites reachable from parse entry points (release builds compile them out; not decided for debug builds)" % (facts.config, n_dbg))
 
 
+def rule_lookaround_arithmetic(col, facts):
+    """GRD-wrap: the digit-separator look-around computes the neighbours of the cursor (`index - 1`, the start of a
+    run of separators) when the cursor may be 0: in a build with overflow checks a plain subtraction there panics
+    on an input that *starts* with the separator (`_1`), while release builds wrap and `slc.get(usize::MAX)` is
+    None.  Every subtraction in lexical_util::skip reachable from a parse entry point must therefore be wrapping
+    (no overflow assertion in the MIR) or be dominated by a comparison of its own left operand."""
+    if "format" not in facts.config:
+        return
+    from rules.core import path_conditions, strip_casts, op_expr, show
+    R = "GRD-wrap"
+    entries, seen = reachable_from_entries(facts)
+    n = 0
+    for f in seen.values():
+        if f.crate != "lexical_util" or "::skip::" not in f.short:
+            continue
+        n += 1
+        k = 0
+        for i, b in enumerate(f.blocks):
+            t = b["t"]
+            if not f.live(i) or t["k"] != "assert" or not str(t.get("msg", "")).startswith("Overflow"):
+                continue
+            e = strip_casts(op_expr(f, t["c"]))
+            while e[0] == "proj" and len(e) > 1 and isinstance(e[1], tuple):
+                e = strip_casts(e[1])
+            if not (e[0] == "bin" and e[1] == "Sub"):
+                continue
+            lhs = show(strip_casts(e[2]))
+            guarded_ = any(lhs in show(c) and strip_casts(c)[0] == "bin" and strip_casts(c)[1] in ("Gt", "Ge", "Lt", "Le", "Ne", "Eq") for _d, c, _p in path_conditions(f, i))
+            k += 1
+            base = f.short if f.kind != "Closure" else f.closure_of
+            col.check(R, "%s:sub#%d" % (base, k), guarded_,
+                      "`%s` is an overflow-checked subtraction in the separator look-around with no dominating comparison of `%s`: when the cursor is 0 (input starts with the separator) debug builds panic instead of returning Ok/Err" % (show(e)[:80], lhs[:40]),
+                      f.loc(b["ts"]))
+    col.floor(R, "skip-iterator functions reachable from parse entry points", n, 20)
+
+
 def rule_index_writers(col, facts):
     """WHO-index: Bytes.index is assigned only by constructors, set_cursor and step_by_unchecked*."""
     R = "WHO-index"
@@ -199,6 +235,7 @@ def run(col, configs, tier):
         guarded(col, inventory, facts)
         guarded(col, rule_index_writers, facts)
         guarded(col, rule_panic_inventory, facts)
+        guarded_soft(col, rule_lookaround_arithmetic, facts)
         guarded_soft(col, X.rule_bigfloat_bits, facts)
         guarded_soft(col, X.rule_binary_factor, facts)
         guarded_soft(col, X.rule_slice_length_pairing, facts)
